@@ -81,4 +81,9 @@ TEXT = {
   "note": "Trusts the harness cursor model and its number decoders (little-endian on the value's 8-bit groups, as C05). Inputs <= 199 bits, nesting <= 12.",
   "technique": "reference-model monitor (cursor stack + decoders) over random word histories with boundary-value size arguments",
  },
+ "C07": {
+  "level": "Exploration: random records of typed fields (every integer width 1..128, both byte orders and signednesses, floats, raw bit-strings, strings, byte lists, nested vectors, fields starting at every bit alignment) are packed with >bitstr, compared bit for bit with the harness's own layout, parsed back to the original values with remain = 0, and re-emitted split over several emit calls with output and output-length checked. Release and overflow-checked builds.",
+  "note": "Trusts the harness layout function (shared with C05) and UTF-8 encoding of strings. Records <= 24 fields / ~1500 bits.",
+  "technique": "round-trip + independent-layout differential monitor over generated field lists",
+ },
 }
